@@ -8,6 +8,12 @@ binding: code -> spec: UDSResponse.parse_dynamic(b) and <Response>.from_pdu(b) o
                  (sweep tables checked for completeness by TLC),
            (ii)  every valid response TLC generates from the layout (boundary classes),
            (iii) their mutated neighbours (truncations, extensions, bit flips), random structured bytes;
+           (iv)  the client-side decoder entry points, for the same clauses R1..R3: helpers.parse_pdu(b, request)
+                 and UDSClient.request(request) on a scripted transport answering b (also behind a responsePending),
+                 request = the request that b's valid base answers; b = valid responses and their extended
+                 neighbours (1..8 trailing bytes: 00/55/AA/CC/FF/other constant fill, mixed tails); the object
+                 handed out -- returned, or carried by the ResponseException (that is what ECU._request stores) --
+                 is recorded like a parse_dynamic result;
          verdict class, exposed public attributes and .pdu validated by TLC (Trace_UdsLayoutResp).
          spec -> code: each exported response case is parsed once; a valid response that is not accepted
          as typed is DRIFT (the statement of C02 only speaks about accepted byte strings).
@@ -20,8 +26,16 @@ import random
 from concurrent.futures import ThreadPoolExecutor
 from typing import Any
 
+from gallia.services.uds import helpers as H
+from gallia.services.uds.core import service as S
+from gallia.services.uds.core.client import UDSClient
+from gallia.services.uds.core.exception import ResponseException
+
 from harness import c01_run as R
+from harness import vloop
+from harness.c01_bind import ctor_kwargs, expose_response
 from harness.common import Machinery, Report, quiet_gallia_logging
+from harness.fakes import ScriptedTransport, ScriptEnv
 
 RESP_ACTIONS = {"DispatchResp", "GateDecode"}
 
@@ -73,10 +87,162 @@ def _repeated_dtc(b: bytes) -> bool:
     return len(set(recs)) < len(recs)
 
 
+# ----------------------------------------------------------------------------- (iv) client-side entry points
+VIA_NAMES = {"dyn": "parse_dynamic", "pdu": "helpers.parse_pdu", "client": "UDSClient.request",
+             "client-pending": "UDSClient.request behind responsePending"}
+FILL_BYTES = (0x00, 0x55, 0xAA, 0xCC, 0xFF)     # usual CAN / gateway fill bytes; any other constant is drawn per base
+NRCS = (0x10, 0x11, 0x12, 0x13, 0x22, 0x31, 0x33, 0x7E, 0x7F, 0x21, 0x78)
+
+
+def extended(b: bytes, rnd: random.Random, more: int = 1) -> list[bytes]:
+    """Extended neighbours of a response: 1..8 trailing identical bytes (what a raw CAN bridge / line gateway that
+    forwards the whole frame payload would append) and mixed tails."""
+    out: list[bytes] = []
+    fills = list(FILL_BYTES) + rnd.sample([x for x in range(1, 255) if x not in FILL_BYTES], more)
+    for fill in fills:
+        for n in range(1, 9):
+            out.append(b + bytes([fill]) * n)
+    for n in (1, 2, 3, 5, 8):
+        out.append(b + bytes(rnd.randint(0, 255) for _ in range(n)))
+        out.append(b + bytes(rnd.randint(0, 255) for _ in range(n - 1)) + bytes([rnd.choice(FILL_BYTES)]))
+    return out
+
+
+def matching_request(kind: str, f: dict[str, Any], req_classes: dict[str, type],
+                     templates: dict[str, list[dict[str, Any]]]) -> Any | None:
+    """A request object that the response (kind, fields f as TLC laid them out) answers: a constructible request
+    of the same kind whose parameters take the values of the response's fields of the same name (identifier,
+    sub-function, block counter, address / size / format ...).  Structural only: field NAMES of the two layout
+    tables; whether it really matches is gallia's decision (a mismatch is a rejection, always allowed)."""
+    if not isinstance(f, dict):         # a response without fields: TLC's empty record arrives as an empty list
+        f = {}
+    if kind == "NegativeResponse":
+        for k, cls in sorted(req_classes.items()):
+            if getattr(cls, "SERVICE_ID", None) == f["rsid"] and templates.get(k):
+                try:
+                    return cls(**ctor_kwargs(cls, k, templates[k][0]))
+                except Exception:  # noqa: BLE001
+                    continue
+        return S.RawRequest(bytes([f["rsid"]]))
+    if kind == "SecurityAccess":
+        rk = "RequestSeed" if f.get("sf", 1) % 2 else "SendKey"
+    else:
+        rk = kind
+    if rk not in req_classes:
+        return None
+    for t in templates.get(rk, [])[:8]:
+        g = dict(t)
+        for n, v in f.items():
+            if n in g and type(g[n]) is type(v):
+                g[n] = v
+            elif n + "s" in g and isinstance(g[n + "s"], list) and isinstance(v, int):
+                g[n + "s"] = [v]              # one identifier of the response = the request's identifier list
+        if "alfid" in f and "alfid_auto" in g:
+            g["alfid_auto"] = False
+        if "size_auto" in g:
+            g["size_auto"] = False
+        try:
+            return req_classes[rk](**ctor_kwargs(req_classes[rk], rk, g))
+        except Machinery:
+            raise
+        except Exception:  # noqa: BLE001
+            continue
+    return None
+
+
+def _record(o: Any, b: bytes) -> tuple[dict[str, Any], str]:
+    """Trace record of the response object `o` some entry point handed out for the received bytes b."""
+    rec: dict[str, Any] = {"b": list(b), "v": "reject", "dyn": True, "kind": "none", "f": {},
+                           "re": {"ok": False, "b": []}, "valid": False}
+    note = ""
+    if not isinstance(o, S.UDSResponse):
+        return rec, "no response object"
+    if isinstance(o, S.RawResponse):
+        rec["v"] = "raw"
+    else:
+        rec["v"] = "typed"
+        rec["kind"], rec["f"] = expose_response(o)
+    try:
+        re_ = o.pdu
+        if not isinstance(re_, (bytes, bytearray)):
+            raise TypeError("pdu is not bytes")
+        rec["re"] = {"ok": True, "b": list(re_)}
+    except Exception as e:  # noqa: BLE001
+        note = f"pdu raises {type(e).__name__}: {e}"[:100]
+    return rec, note
+
+
+def _handed_out(call: Any) -> tuple[Any, str]:
+    """The response object a call hands to its caller: the return value, or the response travelling with a
+    ResponseException (MalformedResponse / RequestResponseMismatch: ECU._request logs and stores exactly that one)."""
+    try:
+        return call(), ""
+    except Machinery:
+        raise
+    except ResponseException as e:
+        return getattr(e, "response", None), type(e).__name__
+    except Exception as e:  # noqa: BLE001
+        return None, f"{type(e).__name__}: {e}"[:100]
+
+
+def exec_parse_pdu(b: bytes, request: Any) -> tuple[dict[str, Any], str]:
+    """helpers.parse_pdu(b, request): the function through which UDSClient / ECU turn received bytes into an object."""
+    o, how = _handed_out(lambda: H.parse_pdu(b, request))
+    rec, note = _record(o, b)
+    return rec, "; ".join(x for x in (how, note) if x)
+
+
+class _ReplyEnv(ScriptEnv):
+    """Peer that answers the next request with the queued messages, then stays silent."""
+
+    def __init__(self) -> None:
+        super().__init__()
+        self.queue: list[bytes] = []
+
+    def rec(self, **kw: Any) -> None:  # keep no log: thousands of calls
+        return
+
+    def on_read(self, timeout: float | None) -> tuple[str, bytes | None]:
+        if self.queue:
+            return "Reply", self.queue.pop(0)
+        return "Timeout", None
+
+
+def exec_client(cases: list[tuple[bytes, Any, bool]]) -> list[tuple[dict[str, Any], str]]:
+    """For each (b, request, pending): UDSClient.request(request) against a peer answering b (behind one
+    `7F sid 78` when `pending`); what the call hands out is recorded against the received bytes b."""
+    out: list[tuple[dict[str, Any], str]] = []
+    env = _ReplyEnv()
+
+    async def go() -> None:
+        cl = UDSClient(ScriptedTransport(env), timeout=1.0, max_retry=0)
+        for b, request, pending in cases:
+            env.queue = ([bytes([0x7F, request.service_id, 0x78])] if pending else []) + [b]
+            try:
+                o, how = await cl.request(request), ""
+            except Machinery:
+                raise
+            except ResponseException as e:
+                o, how = getattr(e, "response", None), type(e).__name__
+            except Exception as e:  # noqa: BLE001
+                o, how = None, f"{type(e).__name__}: {e}"[:100]
+            if env.queue:               # b was never read (the pending message was not taken as one): nothing to judge
+                o, how = None, "reply not consumed"
+            rec, note = _record(o, b)
+            out.append((rec, "; ".join(x for x in (how, note) if x)))
+
+    try:
+        vloop.run(go(), horizon=200.0 * (len(cases) + 10))
+    finally:
+        env.dispose()
+    return out
+
+
 def run(tier: str, seed: int) -> Report:
     quiet_gallia_logging()
     rep = Report("C02", tier, seed)
-    rep.rule = ("one evaluation = one byte string given to UDSResponse.parse_dynamic or <Response>.from_pdu, with the "
+    rep.rule = ("one evaluation = one byte string given to UDSResponse.parse_dynamic, <Response>.from_pdu, "
+                "helpers.parse_pdu (with the request it answers) or received by UDSClient.request, with the "
                 "verdict class (typed / raw / rejected), the exposed public attributes and the re-serialised bytes; "
                 "distinct = distinct (entry point, byte string); non-trivial = accepted (typed or raw), i.e. the "
                 "clauses R1..R3 have something to say")
@@ -137,6 +303,65 @@ def run(tier: str, seed: int) -> Report:
         for m in ms:
             add(m, "dyn", False, "mutant")
             add(m, c["kind"], False, "mutant")
+    # ---- (iv) the client-side entry points: whatever object helpers.parse_pdu / UDSClient.request hand out for the
+    # received bytes b falls under R1..R3 exactly like a parse_dynamic result.  b = a valid response or an extended
+    # neighbour (fill bytes, mixed tails), request = the request the valid base answers
+    rnd4 = random.Random(f"{seed}/client-entry-points")   # own stream: the other families keep their draws
+    req_classes = R.request_classes(data["req_layout"])
+    templates: dict[str, list[dict[str, Any]]] = {}
+    for c in data["req_cases"]:
+        if c["expect"] == "typed":
+            templates.setdefault(c["kind"], []).append(c["f"])
+    per_kind = 6 if tier == "quick" else 16
+    by_kind: dict[str, dict[bytes, dict[str, Any]]] = {}
+    for c in resp_cases:
+        by_kind.setdefault(c["kind"], {}).setdefault(bytes(c["b"]), c)
+    pairs: list[tuple[bytes, Any]] = []          # (valid base, matching request)
+    for k, cs in sorted(by_kind.items()):
+        bl = sorted(cs, key=lambda x: (len(x), x))
+        step = max(1, -(-len(bl) // per_kind))
+        for b in bl[::step] + ([bl[-1]] if (len(bl) - 1) % step else []):
+            rq = matching_request(k, cs[b]["f"], req_classes, templates)
+            if rq is not None:
+                pairs.append((b, rq))
+    # negative responses to real services (the layout cases name arbitrary service ids)
+    for rsid in sorted({c_.SERVICE_ID for c_ in req_classes.values() if isinstance(c_.SERVICE_ID, int)}):
+        rq = matching_request("NegativeResponse", {"rsid": rsid}, req_classes, templates)
+        codes = NRCS if tier == "thorough" else rnd4.sample(NRCS, 4)
+        for nrc in codes:
+            pairs.append((bytes([0x7F, rq.service_id, nrc]), rq))
+    matched = 0
+    client_cases: list[tuple[bytes, Any, bool]] = []
+    seen_cl: set[tuple[bytes, bool]] = set()
+    for b, rq in pairs:
+        base_rec, _ = exec_parse_pdu(b, rq)
+        matched += base_rec["v"] == "typed"
+        exts = extended(b, rnd4, 1 if tier == "quick" else 3)
+        for m in [b] + exts:
+            add(m, "dyn", False, "extended")
+            if ("pdu", m) not in seen:
+                seen.add(("pdu", m))
+                rec, note = exec_parse_pdu(m, rq)
+                traces.append(rec)
+                meta.append({"via": "pdu", "origin": "extended" if m != b else "tlc-valid", "note": note,
+                             "request": bytes(rq.pdu).hex()})
+        # end to end through UDSClient.request: the base and a spread of its neighbours, some behind a responsePending
+        sel = [b] + (exts if tier == "thorough" else rnd4.sample(exts[:40], 6) + rnd4.sample(exts[40:], 2))
+        for m in sel:
+            pend = rnd4.random() < 0.3
+            if (m, pend) not in seen_cl:
+                seen_cl.add((m, pend))
+                client_cases.append((m, rq, pend))
+    for (m, rq, pend), (rec, note) in zip(client_cases, exec_client(client_cases)):
+        traces.append(rec)
+        meta.append({"via": "client-pending" if pend else "client", "origin": "extended", "note": note,
+                     "request": bytes(rq.pdu).hex()})
+    if pairs and not matched:
+        raise Machinery(f"binding: helpers.parse_pdu accepted none of {len(pairs)} valid responses with the request "
+                        f"built for them (request synthesis out of step with gallia's request classes)")
+    rep.extra["client_entry_points"] = {"bases": len(pairs), "bases_accepted_with_their_request": matched,
+                                        "parse_pdu_calls": sum(1 for m_ in meta if m_["via"] == "pdu"),
+                                        "client_requests": len(client_cases)}
     # ---- same-shape variants: a valid response with everything behind the first two bytes randomised (numeric
     # fields and records take arbitrary values; whatever is accepted must expose and re-encode exactly those bytes)
     per_base = 100 if tier == "quick" else 2000
@@ -241,10 +466,11 @@ def run(tier: str, seed: int) -> Report:
         for label in v[2]:
             cls = "Raw" if t["v"] == "raw" else classes[t["kind"]].__name__
             rep.violate(label, {"kind": cls, "repeated_dtc": _repeated_dtc(bytes(t["b"]))},
-                        {"via": "parse_dynamic" if m["via"] == "dyn" else f"{classes[m['via']].__name__}.from_pdu",
+                        {"via": VIA_NAMES[m["via"]] if m["via"] in VIA_NAMES else f"{classes[m['via']].__name__}.from_pdu",
                          "bytes": bytes(t["b"]).hex(), "exposed": t["f"],
                          "reencoded": bytes(t["re"]["b"]).hex() if t["re"]["ok"] else None,
-                         "origin": m["origin"], "note": m["note"], "all": v[2]})
+                         "origin": m["origin"], "note": m["note"], "all": v[2],
+                         **({"request": m["request"]} if "request" in m else {})})
     for t, v in all_recs_extra:
         for label in v[2]:
             cls = "Raw" if t["v"] == "raw" else classes[t["kind"]].__name__
@@ -316,6 +542,14 @@ def replay(path: str) -> int:
         if (via, d["bytes"]) in done:
             continue
         done.add((via, d["bytes"]))
+        if "request" in d:
+            rq = S.UDSRequest.parse_dynamic(bytes.fromhex(d["request"]))
+            if via == VIA_NAMES["pdu"]:
+                rec, _ = exec_parse_pdu(bytes.fromhex(d["bytes"]), rq)
+            else:
+                rec, _ = exec_client([(bytes.fromhex(d["bytes"]), rq, via == VIA_NAMES["client-pending"])])[0]
+            traces.append(rec)
+            continue
         cls = None if via == "parse_dynamic" else by_name[via.split(".")[0]]
         rec, _ = R.exec_response(bytes.fromhex(d["bytes"]), cls)
         traces.append(rec)
